@@ -103,7 +103,10 @@ fn gen_req(rng: &mut Rng, stats: &mut Stats) -> Req {
 
 fn mutate(r: &Req, rng: &mut Rng, stats: &mut Stats) -> Req {
     let mut m = r.clone();
-    match rng.below(9) {
+    match rng.below(11) {
+        9 => { stats.hit("mut:add-const"); // a strict superset of the constant labels: another identity, another dimension signature
+            let k = GOOD.iter().find(|g| m.consts.iter().all(|(x, _)| x != *g) && m.vars.iter().all(|x| x != *g)); if let Some(k) = k { m.consts.push((k.to_string(), rng.pick(VALS).to_string())); } }
+        10 => { stats.hit("mut:drop-const"); if !m.consts.is_empty() { let i = rng.below(m.consts.len()); m.consts.remove(i); } }
         0 => { stats.hit("mut:shuffle-consts"); rng.shuffle(&mut m.consts); }
         1 => { stats.hit("mut:shuffle-vars"); rng.shuffle(&mut m.vars); }
         2 => { stats.hit("mut:boundary-shift-name-value"); // move last char of name to the front of the first const value (in name order)
